@@ -56,29 +56,49 @@ func MonProphecy(rep *report.Report, h BHistory) {
 		}
 		if post.Status == 1 && (pre == nil || pre.Status == 0) {
 			// success: currently whitelisted, bonded validators with this content must hold >= 70% of whitelisted bonded power
-			total, forit := int64(0), int64(0)
-			for _, v := range s.Pre.Validators {
-				if v[2] != 0 && inList(v[0], s.Pre.Whitelist) {
-					total += v[1]
-				}
-			}
-			seen := map[int64]bool{}
-			for _, v := range post.Claims[post.Final] {
-				if seen[v] {
-					continue
-				}
-				seen[v] = true
-				p, b := valPower(s.Pre, v)
-				if b && inList(v, s.Pre.Whitelist) {
-					forit += p
-				}
-			}
-			if post.Final != cid && forit*10 < total*7 {
-				// the final claim is an older content: still must satisfy the threshold
-			}
+			forit, total := powerBehind(s, post)
+			_ = cid
 			if forit*10 < total*7 || total == 0 {
 				rep.Violate("C05/success-below-threshold", fmt.Sprintf("prophecy %d became successful with %d of %d whitelisted bonded power behind the final claim", pid, forit, total), h.replay(s.StepNo))
 			}
+		}
+	}
+}
+
+// powerBehind: the bonded power of the distinct whitelisted validators that claimed the final content of a prophecy, and
+// the bonded power of all distinct whitelisted validators, at the state the step started from.
+func powerBehind(s BStep, post *env.Prophecy) (forit, total int64) {
+	for _, v := range s.Pre.Validators {
+		if v[2] != 0 && inList(v[0], s.Pre.Whitelist) {
+			total += v[1]
+		}
+	}
+	seen := map[int64]bool{}
+	for _, v := range post.Claims[post.Final] {
+		if seen[v] {
+			continue
+		}
+		seen[v] = true
+		p, b := valPower(s.Pre, v)
+		if b && inList(v, s.Pre.Whitelist) {
+			forit += p
+		}
+	}
+	return
+}
+
+// MonWhitelist — C05 "claims are accepted only from currently whitelisted validators": a whitelist edit by the oracle
+// administrator is in force with the transaction that carries it: after an accepted removal the validator is not on
+// the list (however often it stood there), after an accepted addition it is.
+func MonWhitelist(rep *report.Report, h BHistory) {
+	for _, s := range h.Steps {
+		if s.Kind != 3 || !s.OK {
+			continue
+		}
+		val := s.A[1]
+		if on := inList(val, s.Post.Whitelist); on != s.Add {
+			rep.Violate("C05/whitelist-edit-not-in-force", fmt.Sprintf("after an accepted whitelist %s of validator %d the validator is on the list: %v (list before %v, after %v)",
+				map[bool]string{true: "addition", false: "removal"}[s.Add], val, on, s.Pre.Whitelist, s.Post.Whitelist), h.replay(s.StepNo))
 		}
 	}
 }
@@ -113,6 +133,9 @@ func MonCredit(rep *report.Report, h BHistory) {
 			}
 			mintAmt = ct.Amount
 			add(ct.Receiver, mintDenom, ct.Amount)
+			if forit, total := powerBehind(s, post); forit*10 < total*7 || total == 0 {
+				rep.Violate("C06/credited-without-consensus", fmt.Sprintf("event %d was credited with %d of %d whitelisted bonded power behind the credited content", pid, forit, total), h.replay(s.StepNo))
+			}
 			if credited[pid] {
 				rep.Violate("C06/credited-twice", fmt.Sprintf("event %d credited a second time", pid), h.replay(s.StepNo))
 			}
@@ -160,6 +183,7 @@ func C05(c Ctx) *report.Report {
 	hs := RunBridgeHistories(c, rep, rng, BOpts{Histories: c.N(36, 1500), Steps: 26, ClaimW: 10, LockW: 1, AdminW: 3}, &next)
 	for _, h := range hs {
 		MonProphecy(rep, h)
+		MonWhitelist(rep, h)
 		if len(rep.Samples) < 2 && len(h.Steps) > 3 {
 			rep.Sample(h.replay(3))
 		}
